@@ -81,6 +81,9 @@ type xModule struct {
 	Main    *xBody // only for the main module
 	Source  string
 	CRLF    bool
+	// Bare: a file without a single 导入, whose top-level statements come FIRST (line 1 is an
+	// executable statement) and whose declarations follow; no probes, no file operations
+	Bare bool
 }
 
 type xProgram struct {
@@ -263,7 +266,69 @@ func genExcProgram(t *zsim.Tape) *xProgram {
 		m.CRLF = t.Draw(6) == 0
 		p.Mods = append([]*xModule{m}, p.Mods...)
 	}
+	if nm == 1 && t.Draw(4) == 3 {
+		makeBare(p.Mods[0])
+	}
 	return p
+}
+
+// makeBare turns a single-module program into one that needs no library: probes become plain
+// displays, file operations become divisions by zero, handlers of the probe library's
+// exception class become handlers of 异常 (one per body).
+func makeBare(m *xModule) {
+	m.Bare = true
+	var walk func(ss []*xStmt)
+	walk = func(ss []*xStmt) {
+		for _, s := range ss {
+			switch s.Kind {
+			case "probe":
+				s.Kind, s.Text, s.Multi = "disp", fmt.Sprintf("探%d", s.Num), false
+			case "ioread", "ioopen":
+				s.Kind = "div0"
+			}
+			walk(s.Then)
+			walk(s.Else)
+		}
+	}
+	body := func(b *xBody) {
+		if b == nil {
+			return
+		}
+		walk(b.Stmts)
+		seen := map[string]bool{}
+		var cs []*xCatch
+		for _, c := range b.Catches {
+			if c.Class == "探针异常" {
+				c.Class = "异常"
+			}
+			if seen[c.Class] {
+				continue
+			}
+			seen[c.Class] = true
+			walk(c.Body)
+			cs = append(cs, c)
+		}
+		b.Catches = cs
+	}
+	for _, c := range m.Classes {
+		body(c.Ctor)
+		for _, mb := range c.Methods {
+			body(mb)
+		}
+	}
+	for _, f := range m.Funcs {
+		body(f)
+	}
+	body(m.Main)
+	// with the statements first, a failing declaration among them would abort the declaration
+	// pass before the functions below it exist (which a handler of the main body may call)
+	var keep []*xStmt
+	for _, s := range m.Main.Stmts {
+		if s.Kind != "declbad" {
+			keep = append(keep, s)
+		}
+	}
+	m.Main.Stmts = keep
 }
 
 // declFault puts, into one body in twelve, a declaration that fails while it is being declared
@@ -519,7 +584,7 @@ func (g *xGen) stmtsIn(b *xBody, fs []*xBody, cs []*xClass, n int, depth int, to
 		case k == 12:
 			// failing built-in operations, two of them failing in the (simulated) file system:
 			// a path that opens but cannot be read, and a path that does not exist
-			st := &xStmt{Kind: []string{"div0", "conv", "ioread", "ioopen"}[g.t.Draw(4)], Var: g.local()}
+			st := &xStmt{Kind: []string{"div0", "conv", "ioread", "ioopen", "undef", "index", "nomethod", "nokey", "noprop", "badtype", "thrownum", "throwtext"}[g.t.Draw(12)], Var: g.local()}
 			if g.t.Draw(3) == 0 {
 				out = append(out, st)
 			} else {
@@ -558,6 +623,7 @@ func (g *xGen) stmtsIn(b *xBody, fs []*xBody, cs []*xClass, n int, depth int, to
 // ------------------------------------------------------------------ renderer (assigns physical lines)
 
 type xRender struct {
+	quiet int // number of statements before which no layout noise is inserted
 	sb   strings.Builder
 	line int
 	t    *zsim.Tape
@@ -598,7 +664,11 @@ func (x *xRender) noise(indent int) {
 
 func (x *xRender) stmts(indent int, ss []*xStmt) {
 	for _, s := range ss {
-		x.noise(indent)
+		if x.quiet > 0 {
+			x.quiet--
+		} else {
+			x.noise(indent)
+		}
 		switch s.Kind {
 		case "probe":
 			if s.Multi {
@@ -677,6 +747,11 @@ func (x *xRender) stmts(indent int, ss []*xStmt) {
 			s.Line = x.emit(indent, fmt.Sprintf("令%s = 1 / 0", s.Var))
 		case "conv":
 			s.Line = x.emit(indent, fmt.Sprintf("令%s = 以“非数”（转换数值）", s.Var))
+		case "thrownum", "throwtext":
+			// 抛出 of something that is not a type: an ordinary exception saying so
+			s.Line = x.emit(indent, xFaultExpr[s.Kind][0])
+		case "undef", "index", "nomethod", "nokey", "noprop", "badtype":
+			s.Line = x.emit(indent, fmt.Sprintf("令%s = %s", s.Var, xFaultExpr[s.Kind][0]))
 		case "ioread":
 			s.Line = x.emit(indent, fmt.Sprintf("令%s = （读取文件：“%s”）", s.Var, excDirPath))
 		case "ioopen":
@@ -731,14 +806,21 @@ func renderModule(t *zsim.Tape, m *xModule, withProbe bool) {
 	if m.CRLF {
 		x.nl = "\r\n"
 	}
-	if withProbe {
-		x.emit(0, "导入《@探针》")
+	if m.Bare && m.Main != nil {
+		// line 1 is the first top-level statement; the declarations follow, the handlers end the file
+		x.quiet = 1
+		x.stmts(0, m.Main.Stmts)
+		x.emit(0, "")
+	} else {
+		if withProbe {
+			x.emit(0, "导入《@探针》")
+		}
+		x.emit(0, "导入《@文件》")
+		for _, im := range m.Imports {
+			x.emit(0, "导入“"+im+"”")
+		}
+		x.emit(0, "")
 	}
-	x.emit(0, "导入《@文件》")
-	for _, im := range m.Imports {
-		x.emit(0, "导入“"+im+"”")
-	}
-	x.emit(0, "")
 	for _, c := range m.Classes {
 		x.emit(0, "定义"+c.Name+"：")
 		if c.IsExc {
@@ -768,7 +850,13 @@ func renderModule(t *zsim.Tape, m *xModule, withProbe bool) {
 		x.body(1, f)
 		x.emit(0, "")
 	}
-	if m.Main != nil {
+	if m.Bare && m.Main != nil {
+		for _, c := range m.Main.Catches {
+			x.emit(0, "")
+			x.emit(0, "拦截"+c.Class+"：")
+			x.stmts(1, c.Body)
+		}
+	} else if m.Main != nil {
 		x.body(0, m.Main)
 	}
 	m.Source = x.sb.String()
@@ -940,6 +1028,8 @@ func (m *xRef) run(ss []*xStmt) (ret *xVal, ex *xRaise) {
 			return nil, m.raise("异常", "被除数不得为0", "div0")
 		case "conv":
 			return nil, m.raise("异常", "转成数值失败，文本可能并不符合合适的数值格式", "conv")
+		case "undef", "index", "nomethod", "nokey", "noprop", "badtype", "thrownum", "throwtext":
+			return nil, m.raise("异常", xFaultExpr[s.Kind][1], s.Kind)
 		case "ioread":
 			return nil, m.raise("异常", "读取文件失败：read "+excDirPath+": is a directory", "ioread")
 		case "ioopen":
@@ -1107,6 +1197,18 @@ type excScenario struct {
 	Got      string            `json:"got"`
 	Chain    string            `json:"expected_chain,omitempty"`
 	GotChain string            `json:"got_chain,omitempty"`
+}
+
+// further runtime faults of ordinary expressions: expression, message of the exception
+var xFaultExpr = map[string][2]string{
+	"undef":    {"（无此函数）", "标识「无此函数」未有定义"},
+	"index":    {"【1，2】 # 9", "索引超出此对象可用范围"},
+	"nomethod": {"以1（无此法）", "方法「无此法」不存在"},
+	"nokey":    {"【“k” = 1】 # “无”", "索引「无」并不存在于此对象中"},
+	"noprop":   {"1 之 无此属性", "属性「无此属性」不存在"},
+	"badtype":  {"“a” + 1", "表达式不符合期望的「数值」类型"},
+	"thrownum": {"抛出数值：404！", "「数值」必须是一个类型！"},
+	"throwtext": {"抛出真：“x”！", "「真」必须是一个类型！"},
 }
 
 // two paths of the simulated file system that make 读取文件 fail: one opens (it is a
